@@ -203,7 +203,18 @@ def read(fh, cocos=1):
 
     # Read the first line
     header = fh.readline()
-    words = header.split()  # Split on whitespace
+    # The line ends with idum, nx, ny in format 3i4. When nx or ny has four digits the
+    # fields are not separated by spaces, so take them by position in that case.
+    tail = header.rstrip("\r\n")[-12:]
+    fixed = [tail[0:4].strip(), tail[4:8].strip(), tail[8:12].strip()]
+    if (
+        len(tail) == 12
+        and all(field.isdigit() for field in fixed)
+        and (len(fixed[1]) == 4 or len(fixed[2]) == 4)
+    ):
+        words = fixed
+    else:
+        words = header.split()  # Split on whitespace
     if len(words) < 3:
         raise ValueError("Expecting at least 3 numbers on first line")
 
